@@ -176,6 +176,31 @@ class WithModules(nn.Module):
         return self.head(self.pool(self.act(self.c0(x))))
 
 
+class SymmetricPadModule(nn.Module):
+    """a temporal convolution behind an explicit SYMMETRIC padding module written by the user"""
+    def __init__(self):
+        super().__init__()
+        self.pad = nn.ConstantPad1d((1, 1), 0)
+        self.c0 = nn.Conv1d(2, 2, 3)
+        self.head = nn.Conv1d(2, 1, 1)
+
+    def forward(self, x):
+        return self.head(self.c0(self.pad(x)))
+
+
+class SharedConvBn(nn.Module):
+    """one convolution module invoked twice, followed by a BatchNorm at its first call site only"""
+    def __init__(self):
+        super().__init__()
+        self.c0 = nn.Conv1d(2, 2, 1)
+        self.bn = nn.BatchNorm1d(2)
+        self.head = nn.Conv1d(2, 1, 1)
+
+    def forward(self, x):
+        y = F.relu(self.bn(self.c0(x)))
+        return self.head(self.c0(y))
+
+
 class ConcatOutput(nn.Module):
     """the network output IS a channel concatenation: both operands are tied to the output width"""
     def __init__(self):
@@ -245,6 +270,8 @@ EXTRA_NETS = {
     'concat-output': (ConcatOutput, (1, 2, 2), {'c0': 'free', 'c1': 'frozen', 'c2': 'frozen'}, {'c0': None, 'c1': ['c0'], 'c2': ['c0']}),
     'add-excluded': (AddExcluded, (1, 2, 2), {'c0': 'frozen', 'head': 'frozen'}, {'c0': None, 'head': [2]}),
     'excluded-consumer': (ExcludedConsumer, (1, 2, 2), {'c0': 'frozen', 'head': 'frozen'}, {'c0': None, 'head': [2]}),
+    'symmetric-pad-module': (SymmetricPadModule, (1, 2, 3), {'head': 'frozen'}, {}),
+    'shared-conv-bn': (SharedConvBn, (1, 2, 2), {'head': 'frozen'}, {}),
     'temporal-symmetric': (TemporalSymmetric, (1, 1, 4), {'c0': 'free', 'tc': 'free', 'head': 'frozen'}, {'c0': None, 'tc': ['c0'], 'head': ['tc']}),
 }
 NETS.update(EXTRA_NETS)
@@ -322,6 +349,11 @@ def h_import(H, net, training, fold_bn, autoconvert=True, mixed=()):
         if H.type_name(m) in ('Conv1d', 'Conv2d', 'Linear'):
             o = dict(user.named_modules())[n]
             H.ensure('[C07] import:export-immediately-returns-the-original-layer-sizes', H.shape(m.weight) == H.shape(o.weight))
+    if not any(H.type_name(m) in ('BatchNorm1d', 'BatchNorm2d') for m in exported.modules()):
+        # (a BatchNorm that export re-creates starts from fresh statistics - the statement of C01 hands it the original ones; without one the exported
+        # network has the original architecture AND the original weights, hence the original function)
+        exported.eval()
+        H.ensure('[C07] import:export-immediately-computes-the-original-function', H.eq(exported(x), y0))
 
 
 def _alive(H, layer):
@@ -456,6 +488,9 @@ HARNESSES = [
          quick=[dict(net='concat-output', training=False, fold_bn=False)], thorough=[dict(net='concat-output', training=t, fold_bn=False) for t in _B], timeout=120),
     dict(name='whole-search-export-output-shape', bounded='enumerated architectures (EXTRA_NETS)', fn='h_search_export', property=['C08'], functions=_FUNCS,
          quick=[dict(net='concat-output'), dict(net='temporal-symmetric')], thorough=[dict(net='concat-output'), dict(net='temporal-symmetric')], timeout=120),
+    dict(name='whole-import-reported', bounded='enumerated architectures (EXTRA_NETS)', fn='h_import', property=['C07'], functions=_FUNCS,
+         quick=[dict(net=n, training=False, fold_bn=False) for n in ('symmetric-pad-module', 'shared-conv-bn')],
+         thorough=[dict(net=n, training=t, fold_bn=f) for n in ('symmetric-pad-module', 'shared-conv-bn') for t in _B for f in _B], timeout=120),
     dict(name='whole-import-excluded', bounded='enumerated architectures (EXTRA_NETS)', fn='h_import', property=['C09'], functions=_FUNCS,
          quick=[dict(net=n, training=False, fold_bn=False) for n in ('add-excluded', 'excluded-consumer')],
          thorough=[dict(net=n, training=False, fold_bn=False) for n in ('add-excluded', 'excluded-consumer')], timeout=120),
